@@ -198,6 +198,23 @@ check:
 				break check
 			}
 		}
+		// A submodule also sees the top level of the module it belongs
+		// to and of that module's other submodules (RFC 7950 5.1).
+		if root.BelongsTo != nil {
+			if owner := module(root); owner != nil {
+				if td = d.find(owner, name); td != nil {
+					break check
+				}
+				for _, in := range owner.Include {
+					if in.Module == nil {
+						continue
+					}
+					if td = d.find(in.Module, name); td != nil {
+						break check
+					}
+				}
+			}
+		}
 		var pname string
 		switch {
 		case prefix == "", prefix == rootPrefix:
